@@ -29,6 +29,9 @@ class Expect:
         (self.out_set if multiset else self.out).append(item)
 
 
+ADOPT = "<adopt>"
+
+
 def new_node(nid):
     return {"id": nid, "type": None, "sketch_name": None, "sketch_version": None, "battery": 0,
             "version": "1.4", "heartbeat": 0, "children": {}, "desired": {}, "sleep_children": [],
@@ -94,7 +97,11 @@ class GatewayModel:
             if rec is None:
                 rec = self.nodes[node] = new_node(node)
             rec["type"] = sub
-            rec["version"] = payload
+            # a node presentation normally carries the node's library version; when the payload of the
+            # (valid) frame is not a version - eg a child presentation whose child id was corrupted
+            # to 255 - the statement does not say what the version becomes: the oracle adopts what the
+            # gateway holds afterwards (ADOPT is resolved by the caller), the line must still be handled
+            rec["version"] = payload if tables.payload_rule(self.version, 0, sub) == "version" else ADOPT
             rec["reboot"] = False
             exp.cb = "must"
             return
